@@ -4,6 +4,7 @@ that the executable predicate `Spec.C18.disaggSpec` holds on the model's own out
 -/
 import Bermuda.Lemmas.UnitsDates
 import Bermuda.Lemmas.UnitsAt
+import Bermuda.Lemmas.UnitsSig
 import Bermuda.Lemmas.Basis
 namespace Bermuda.Units
 open Bermuda Bermuda.Spec.C18 Std
@@ -75,7 +76,9 @@ def SubCellsN (res n : Nat) (F : List String) (c : Cell) (part : List Cell) : Pr
     o.values.map (·.1) = (c.values.filter fun kv => F.contains kv.1).map (·.1)) ∧
   (part ≠ [] → ∀ f, F.contains f = true → ∀ i, total part f i = cellField c f i) ∧
   (part ≠ [] → ∀ f, F.contains f = true → ∀ i,
-    (part.map fun o => (o.getV f).at i).sum = (c.getV f).at i)
+    (part.map fun o => (o.getV f).at i).sum = (c.getV f).at i) ∧
+  (∀ o ∈ part, ∀ kv ∈ c.values, F.contains kv.1 = true →
+    ∃ σ, psg kv.2 = some σ ∧ fsg (o.getV kv.1) = some σ)
 
 theorem disaggSlice_groups {sl out : List Cell} {res : Nat} {ws : List Rat} {fields : List String}
     (hk : ∀ c ∈ sl, KN c.values) (hws : ws ≠ []) (h : disaggSlice sl res ws fields = .ok out) :
@@ -94,7 +97,8 @@ theorem disaggSlice_groups {sl out : List Cell} {res : Nat} {ws : List Rat} {fie
       obtain ⟨_, h2, h3⟩ := disaggCell_spec (hk c hc) hws hp
       exact ⟨disaggCell_periods (hk c hc) hp,
         fun o ho => ⟨(h2 o ho).1, (h2 o ho).2.1, (h2 o ho).2.2.1, (h2 o ho).2.2.2.2⟩, h3,
-        fun hne f hf i => disaggCell_at (hk c hc) hws hp hne f hf i⟩
+        fun hne f hf i => disaggCell_at (hk c hc) hws hp hne f hf i,
+        fun o ho kv hkv hf => disaggCell_sig (hk c hc) hp ho hkv hf⟩
 
 theorem disaggCore_groups {t out : List Cell} {res : Nat} {ws : List Rat} {fields : List String}
     (hk : ∀ c ∈ t, KN c.values) (hws : ws ≠ []) (h : disaggCore t res ws fields = .ok out) :
